@@ -172,6 +172,8 @@ def run(ctx):
     # two extension markers, additions inserted in front of trailing root components (outside the generator's universe)
     from .. import twomark
     twomark.run(ctx, 'C07', rng, ctx.n(60, 800), CODECS)
+    from .. import scripted
+    scripted.ext_implied_versions(ctx, CODECS)
     # witness of the known finding
     v1 = 'M DEFINITIONS AUTOMATIC TAGS ::= BEGIN A ::= SEQUENCE OF CHOICE { n NULL, ... } END'
     v2 = 'M DEFINITIONS AUTOMATIC TAGS ::= BEGIN A ::= SEQUENCE OF CHOICE { n NULL, ..., k1 BOOLEAN } END'
